@@ -78,6 +78,9 @@ type Heap struct {
 
 var havocEpoch int
 
+// heap arrays that hold the counters of `ghostset` clauses
+var ghostSetArrays = map[string]bool{}
+
 func (h *Heap) clone() *Heap {
 	n := &Heap{arr: make(map[string]*Term, len(h.arr)), havocs: append([]havocRec{}, h.havocs...)}
 	for k, v := range h.arr {
@@ -112,6 +115,9 @@ func (h *Heap) get(name string, s Sort) *Term {
 	}
 	ep, framed := 0, false
 	for _, r := range h.havocs {
+		if r.prefix == "*" && ghostSetArrays[name] {
+			continue
+		}
 		if r.prefix == "*" || strings.HasPrefix(name, r.prefix) {
 			ep, framed = r.epoch, r.framed
 		}
@@ -134,6 +140,10 @@ func (h *Heap) havocPrefixF(prefix string, framed bool) {
 	havocEpoch++
 	h.havocs = append(h.havocs, havocRec{prefix, havocEpoch, framed})
 	for k := range h.arr {
+		if prefix == "*" && ghostSetArrays[k] {
+			// bookkeeping counters of `ghostset` clauses are written by those clauses only
+			continue
+		}
 		if prefix == "*" || strings.HasPrefix(k, prefix) {
 			delete(h.arr, k)
 		}
